@@ -1,5 +1,5 @@
 """C04 -- see DESIGN.md section 4, C04."""
-from . import handlers
+from . import handlers, sqlunits
 
 LEVEL = "other"
 EXPLANATION = "trace obligations of the real handlers (layer L2) selected by the prefix C04/"
@@ -8,4 +8,4 @@ TRUSTED = []
 
 
 def units(tier):
-    return handlers.units_for("C04")
+    return sqlunits.units_for("C04") + handlers.units_for("C04")
